@@ -232,12 +232,21 @@ type bscenario struct {
 
 // W1: the woken client's element is taken by someone else before it retries; a later push must still reach it
 func scenStolen(g *rand.Rand) (string, []string, error) {
+	return scenStolenV(g.Intn(5), g)
+}
+
+// one scenario per blocking command (single-key and multi-key registration differ)
+func stolenVariant(v int) func(g *rand.Rand) (string, []string, error) {
+	return func(g *rand.Rand) (string, []string, error) { return scenStolenV(v, g) }
+}
+
+func scenStolenV(variant int, g *rand.Rand) (string, []string, error) {
 	w, err := newBWorld(2)
 	if err != nil {
 		return "", nil, err
 	}
 	defer w.close()
-	cmd := [][]string{{"BLPOP", "k", "0"}, {"BRPOP", "k", "0"}, {"BLMOVE", "k", "dst", "LEFT", "RIGHT", "0"}, {"BRPOPLPUSH", "k", "dst", "0"}, {"BLMPOP", "0", "1", "k", "LEFT"}}[g.Intn(5)]
+	cmd := [][]string{{"BLPOP", "k", "0"}, {"BRPOP", "k", "0"}, {"BLMOVE", "k", "dst", "LEFT", "RIGHT", "0"}, {"BRPOPLPUSH", "k", "dst", "0"}, {"BLMPOP", "0", "1", "k", "LEFT"}}[variant]
 	w.block(0, []string{"k"}, cmd...)
 	if !w.waitQueued("k", 1) {
 		return "the blocking client never registered in the wait table", w.log, nil
@@ -257,6 +266,60 @@ func scenStolen(g *rand.Rand) (string, []string, error) {
 	}
 	// BLMOVE family moves into dst: count what arrived there
 	return w.verdict([]string{"k", "dst"}), w.log, nil
+}
+
+// elements are opaque: the empty string, "0", a NUL byte, text that looks like a reply are delivered like any
+// other element - to a client that is already blocked and to one that finds them in the list
+func oddElementVariant(v int) func(g *rand.Rand) (string, []string, error) {
+	return func(g *rand.Rand) (string, []string, error) {
+		w, err := newBWorld(1)
+		if err != nil {
+			return "", nil, err
+		}
+		defer w.close()
+		forms := [][]string{{"BLPOP", "k", "0"}, {"BRPOP", "k2", "k", "0"}, {"BLMOVE", "k", "dst", "LEFT", "RIGHT", "0"}, {"BRPOPLPUSH", "k", "dst", "0"}, {"BLMPOP", "0", "2", "k2", "k", "LEFT"}}
+		form := forms[v%len(forms)]
+		for _, el := range []string{"", "0", "\x00", "$-1\r\n", " "} {
+			for _, blockedFirst := range []bool{true, false} {
+				if blockedFirst {
+					w.block(0, []string{"k"}, form...)
+					if !w.waitQueued("k", 1) {
+						return "the blocking client never registered in the wait table", w.log, nil
+					}
+					w.do("RPUSH", "k", el)
+				} else {
+					w.do("RPUSH", "k", el)
+					w.block(0, []string{"k"}, form...)
+				}
+				r, _ := w.poll(0, time.Second)
+				if r == nil {
+					return fmt.Sprintf("%v is still blocked although %q was pushed to k (blocked before the push: %v)", form, el, blockedFirst), w.log, nil
+				}
+				got := ""
+				switch {
+				case r.Kind == '$' && !r.Nil:
+					got = string(r.Str)
+				case r.Kind == '*' && len(r.Elems) == 2 && r.Elems[1].Kind == '$':
+					got = string(r.Elems[1].Str)
+				case r.Kind == '*' && len(r.Elems) == 2 && r.Elems[1].Kind == '*' && len(r.Elems[1].Elems) == 1:
+					got = string(r.Elems[1].Elems[0].Str)
+				default:
+					return fmt.Sprintf("%v answered %s after %q was pushed", form, r.String(), el), w.log, nil
+				}
+				if got != el {
+					return fmt.Sprintf("%v delivered %q, pushed %q", form, got, el), w.log, nil
+				}
+				if n, _ := w.do("LLEN", "k"); n == nil || n.Int != 0 {
+					return fmt.Sprintf("after %v took %q the list k still has elements", form, el), w.log, nil
+				}
+				if d, _ := w.do("LRANGE", "dst", "0", "-1"); d != nil && len(d.Elems) > 0 && string(d.Elems[len(d.Elems)-1].Str) != el {
+					return fmt.Sprintf("%v moved %q but dst ends with %s", form, el, d.String()), w.log, nil
+				}
+				w.do("DEL", "dst")
+			}
+		}
+		return "", w.log, nil
+	}
 }
 
 // W2: a push coincides with the timeout of the first waiter; the second waiter must get the element
@@ -465,28 +528,41 @@ func scenTimeouts(g *rand.Rand) (string, []string, error) {
 		return "", nil, err
 	}
 	defer w.close()
-	for _, t := range []string{"0.05", "0.2", "0.0000000001", "1e-3"} {
-		want, _ := strconv.ParseFloat(t, 64)
-		t0 := time.Now()
-		w.block(0, []string{"k"}, "BLPOP", "k", t)
-		r, err := w.poll(0, 3*time.Second)
-		el := time.Since(t0)
-		if err != nil || r == nil {
-			return fmt.Sprintf("BLPOP k %s did not end by itself within 3 s (a positive timeout must not mean forever)", t), w.log, nil
-		}
-		if !r.Nil {
-			return "timeout reply is not null: " + r.String(), w.log, nil
-		}
-		if el.Seconds() < want-0.002 {
-			return fmt.Sprintf("BLPOP k %s ended after %v: earlier than the timeout", t, el), w.log, nil
-		}
-		if el.Seconds() > want+0.35 {
-			return fmt.Sprintf("BLPOP k %s ended after %v: not promptly after the timeout", t, el), w.log, nil
-		}
-		// the connection is usable again
-		w.clients[0].conn.Send(bs("PING"))
-		if p, err := w.clients[0].conn.Read(time.Second); err != nil || string(p.Str) != "PONG" {
-			return "connection unusable after a timed-out block", w.log, nil
+	// every blocking command x timeouts incl. a positive one below a nanosecond (must not mean "for ever")
+	forms := [][]string{{"BLPOP", "k"}, {"BRPOP", "k", "k2"}, {"BLMOVE", "k", "kdst", "LEFT", "RIGHT"}, {"BRPOPLPUSH", "k", "kdst"}, {"BLMPOP"}}
+	timeouts := []string{"0.05", "0.2", "0.0000000001", "1e-3", "1e-10", "0.00000000099"}
+	g.Shuffle(len(timeouts), func(i, j int) { timeouts[i], timeouts[j] = timeouts[j], timeouts[i] })
+	for fi, form := range forms {
+		for ti, t := range timeouts {
+			if ti > 1 && !(t == "0.0000000001" || t == "1e-10" || t == "0.00000000099") && fi > 0 {
+				continue
+			}
+			want, _ := strconv.ParseFloat(t, 64)
+			cmd := append(append([]string{}, form...), t)
+			if form[0] == "BLMPOP" {
+				cmd = []string{"BLMPOP", t, "2", "k", "k2", "LEFT"}
+			}
+			t0 := time.Now()
+			w.block(0, []string{"k"}, cmd...)
+			r, err := w.poll(0, 3*time.Second)
+			el := time.Since(t0)
+			if err != nil || r == nil {
+				return fmt.Sprintf("%v did not end by itself within 3 s (a positive timeout must not mean forever)", cmd), w.log, nil
+			}
+			if !r.Nil && !(r.Kind == '*' && len(r.Elems) == 0) {
+				return fmt.Sprintf("%v: timeout reply is not null: %s", cmd, r.String()), w.log, nil
+			}
+			if el.Seconds() < want-0.002 {
+				return fmt.Sprintf("%v ended after %v: earlier than the timeout", cmd, el), w.log, nil
+			}
+			if el.Seconds() > want+0.35 {
+				return fmt.Sprintf("%v ended after %v: not promptly after the timeout", cmd, el), w.log, nil
+			}
+			// the connection is usable again
+			w.clients[0].conn.Send(bs("PING"))
+			if p, err := w.clients[0].conn.Read(time.Second); err != nil || string(p.Str) != "PONG" {
+				return "connection unusable after a timed-out block", w.log, nil
+			}
 		}
 	}
 	// a wake-up that delivers nothing (the element is gone again before the retry) does not cancel
@@ -915,11 +991,11 @@ func runBlocking(prop string, scen []func(g *rand.Rand) (string, []string, error
 
 func init() {
 	c11scen := runBlocking("C11",
-		[]func(g *rand.Rand) (string, []string, error){scenStolen, scenTimeoutTie, scenMultiKey, scenFifo,
+		[]func(g *rand.Rand) (string, []string, error){stolenVariant(0), stolenVariant(1), stolenVariant(2), stolenVariant(3), stolenVariant(4), scenStolen, oddElementVariant(0), oddElementVariant(1), oddElementVariant(2), oddElementVariant(3), oddElementVariant(4), scenTimeoutTie, scenMultiKey, scenFifo,
 			otherProducerVariant(0), otherProducerVariant(1), otherProducerVariant(2), otherProducerVariant(3), otherProducerVariant(4), otherProducerVariant(5), otherProducerVariant(6),
 			scenOtherProducers, scenRandom, scenRandom, scenRandom},
-		[]string{"stolen-wakeup", "timeout-tie", "multi-key", "fifo", "other-producers", "other-producers", "other-producers", "other-producers", "other-producers", "other-producers", "other-producers",
-			"other-producers", "random", "random", "random"}, 44, 800)
+		[]string{"stolen-wakeup", "stolen-wakeup", "stolen-wakeup", "stolen-wakeup", "stolen-wakeup", "stolen-wakeup", "opaque-elements", "opaque-elements", "opaque-elements", "opaque-elements", "opaque-elements", "timeout-tie", "multi-key", "fifo", "other-producers", "other-producers", "other-producers", "other-producers", "other-producers", "other-producers", "other-producers",
+			"other-producers", "random", "random", "random"}, 54, 800)
 	streams["C11"] = func(cfg runCfg, res *Result) error {
 		if os.Getenv("VERIF_ONLY_LOCKSTEP") == "" {
 			if err := c11scen(cfg, res); err != nil || cfg.replay != "" {
